@@ -1,17 +1,49 @@
 //! Harness binary `h_gs_c <PROP> --seed S --tier T [--count N] [--replay F]`.
 //! One module per property (`cNN.rs`, `pub fn run(args: &hcore::Args, out: &mut hcore::Out)`).
+mod c35;
+mod node;
+
+/// Virtual monotonic clock, FROZEN: `CLOCK_MONOTONIC` reads exactly `BASE_SECS` seconds +
+/// `hcore::CLOCK_OFFSET_NS`, so `Instant::now()` inside the behaviour (backoffs, fanout ttl) is a
+/// pure function of the op sequence; `hcore::warp` moves it.
+pub const BASE_SECS: i64 = 1_000_000;
+
+extern "C" {
+    fn __clock_gettime(clk: i32, ts: *mut [i64; 2]) -> i32;
+}
+
+#[no_mangle]
+pub unsafe extern "C" fn clock_gettime(clk: i32, ts: *mut [i64; 2]) -> i32 {
+    if clk == 1 {
+        let off = hcore::CLOCK_OFFSET_NS.load(std::sync::atomic::Ordering::SeqCst);
+        let t = &mut *ts;
+        t[0] = BASE_SECS + (off / 1_000_000_000) as i64;
+        t[1] = (off % 1_000_000_000) as i64;
+        return 0;
+    }
+    __clock_gettime(clk, ts)
+}
+
+/// virtual time in ns since the start of the case
+pub fn now_ns() -> u64 {
+    hcore::CLOCK_OFFSET_NS.load(std::sync::atomic::Ordering::SeqCst)
+}
+
+/// set the virtual time (a new case restarts at 0)
+pub fn set_now(now: u64) {
+    hcore::CLOCK_OFFSET_NS.store(now, std::sync::atomic::Ordering::SeqCst);
+}
 
 fn main() {
     let args = hcore::Args::parse();
     hcore::quiet_panics();
     let mut out = hcore::Out::new();
     match args.prop.as_str() {
+        "C35" => c35::run(&args, &mut out),
         p => {
-            let _ = &mut out;
             eprintln!("h_gs_c: unknown property {p}");
             std::process::exit(2);
         }
     }
-    #[allow(unreachable_code)]
     out.flush();
 }
